@@ -720,3 +720,107 @@ pub fn fan_pair(rng: &mut Rng) -> (Vec<(Vec<P>, Vec<Vec<P>>)>, Vec<(Vec<P>, Vec<
         return (vec![(below, vec![])], vec![(above, vec![])]);
     }
 }
+
+// ------------------------------------------------------------------------------------------
+// families beyond the 2^12 domain (coordinates up to 2^28): operands that meet in at most one
+// common vertex BY CONSTRUCTION (checked here in exact i128 arithmetic), presented
+// counter-clockwise. TLC judges them with arithmetic-free laws only.
+fn farey_neighbour(a: i64, b: i64) -> Option<(i64, i64)> {
+    let (g, x, y) = egcd(a, b);
+    if g != 1 {
+        return None;
+    }
+    let (mut c, mut d) = (-y, x);
+    while c <= 0 || d <= 0 {
+        c += a;
+        d += b;
+    }
+    if (a as i128) * (d as i128) - (b as i128) * (c as i128) != 1 {
+        return None;
+    }
+    Some((c, d))
+}
+/// two triangles sharing only the apex O, edges OP, OQ in adjacent Farey directions; `bits`:
+/// magnitude of the coordinate differences (24: every subtraction rounds in f32)
+pub fn bigfan_pair(rng: &mut Rng, bits: u32) -> (Vec<(Vec<P>, Vec<Vec<P>>)>, Vec<(Vec<P>, Vec<Vec<P>>)>) {
+    let m: i64 = 1 << bits;
+    let lim = m - 1;
+    loop {
+        // coordinates stay below 2^bits in magnitude, coordinate DIFFERENCES reach 2^(bits+1)
+        let o = (-rng.range(m / 8, lim), -rng.range(m / 8, lim));
+        let (a, b) = (rng.range(m / 4, lim - o.0), rng.range(m / 4, lim - o.1));
+        let (c, d) = match farey_neighbour(a, b) {
+            Some(v) => v,
+            None => continue,
+        };
+        let p = (o.0 + a, o.1 + b);
+        let q = (o.0 + c, o.1 + d);
+        if p.0.abs() > lim || p.1.abs() > lim || q.0.abs() > lim || q.1.abs() > lim {
+            continue;
+        }
+        let below = vec![o, (p.0, -lim), p];
+        let above = vec![o, q, (o.0 + rng.range(1, 2000).min(lim - o.0), lim)];
+        let a2 = |r: &Vec<P>| -> i128 { (0..3).map(|i| (r[i].0 as i128) * (r[(i + 1) % 3].1 as i128) - (r[i].1 as i128) * (r[(i + 1) % 3].0 as i128)).sum() };
+        if a2(&below) <= 0 || a2(&above) <= 0 {
+            continue;
+        }
+        return (vec![(below, vec![])], vec![(above, vec![])]);
+    }
+}
+/// a sliver triangle (two long edges from O in adjacent Farey directions) and a small square
+/// well above it (disjoint; the boxes overlap)
+pub fn bigsliver_pair(rng: &mut Rng, bits: u32) -> (Vec<(Vec<P>, Vec<Vec<P>>)>, Vec<(Vec<P>, Vec<Vec<P>>)>) {
+    let m: i64 = 1 << bits;
+    loop {
+        let (a, b) = (rng.range(m / 2, m - 1), rng.range(m / 2, m - 1));
+        let (c, d) = match farey_neighbour(a, b) {
+            Some(v) => v,
+            None => continue,
+        };
+        if c >= m || d >= m || c < m / 4 || d < m / 4 {
+            continue;
+        }
+        // O = origin; P = (a,b), Q = (c,d), cross(P,Q) = 1: triangle O, P, Q is counter-clockwise and has area 1/2
+        let t = vec![(0, 0), (a, b), (c, d)];
+        // a square strictly above the sliver: above both P and Q in y at an x inside the sliver's x-range
+        let sx = rng.range(m / 16, m / 8);
+        let slope_top = (b.max(d) as i128 * sx as i128 / (a.min(c) as i128)) as i64; // y of the steeper long edge at sx, rounded down
+        let sy = slope_top + rng.range(2000, 9000);
+        let w = rng.range(100, 2000);
+        if sy + w >= m {
+            continue;
+        }
+        let sq = vec![(sx, sy), (sx + w, sy), (sx + w, sy + w), (sx, sy + w)];
+        return (vec![(t, vec![])], vec![(sq, vec![])]);
+    }
+}
+
+/// family "tfan": a T-touch at the thinnest angle the 2^13 domain can express. A = triangle with
+/// the edge C-u .. C+u on top (body below it), B = triangle C, C+v, Q above that edge, with u, v in
+/// adjacent Farey directions (|u|, |v| ~ 3000..4000, angle ~ 1/(|u||v|) < 1e-7 rad): the vertex C of B
+/// lies exactly in the interior of A's edge; nothing else meets.
+pub fn tfan_pair(rng: &mut Rng) -> (Vec<(Vec<P>, Vec<Vec<P>>)>, Vec<(Vec<P>, Vec<Vec<P>>)>) {
+    loop {
+        let (a, b) = if rng.chance(2, 3) { (rng.range(7000, 8080), rng.range(7000, 8080)) } else { (rng.range(2500, 5700), rng.range(600, 5700)) };
+        let (c, d) = match farey_neighbour(a, b) {
+            Some(v) => v,
+            None => continue,
+        };
+        if c > 8080 || d > 8080 || c < 300 || (a > 6000 && (c < 6000 || d < 6000)) {
+            continue;
+        }
+        let cx = rng.range(-100, 100);
+        let cy = rng.range(-100, 100);
+        let ctr = (cx, cy);
+        let l = (ctr.0 - a, ctr.1 - b);
+        let r = (ctr.0 + a, ctr.1 + b);
+        let pa = (r.0 - rng.range(0, 500), -7900);
+        let ta = vec![l, pa, r]; // counter-clockwise: body below the edge l..r
+        let q = (ctr.0 + rng.range(-200, 200), 7900);
+        let tb = vec![ctr, (ctr.0 + c, ctr.1 + d), q];
+        if area2(&ta) <= 0 || area2(&tb) <= 0 {
+            continue;
+        }
+        return (vec![(ta, vec![])], vec![(tb, vec![])]);
+    }
+}
